@@ -606,3 +606,390 @@ impl Drop for CListener {
         self.drop_port();
     }
 }
+
+// ------------------------------------------------------------------------------------------
+// request-response
+// ------------------------------------------------------------------------------------------
+use crate::rr::{ClientSide, Layout, RrCfg, RrWorld, ServerSide};
+
+struct CRrWorld {
+    node: iox2_node_h,
+    factory: iox2_port_factory_request_response_h,
+    req: usize,
+    resp: usize,
+}
+
+fn cvariant(l: &Layout) -> iox2_type_variant_e {
+    if l.dynamic {
+        iox2_type_variant_e::DYNAMIC
+    } else {
+        iox2_type_variant_e::FIXED_SIZE
+    }
+}
+
+pub fn rr_world(cfg: &RrCfg, svc: &str, node: &str) -> Result<Box<dyn RrWorld>, String> {
+    unsafe {
+        let nh = c_node(cfg.local, node)?;
+        let sb = match c_service_builder(&nh, svc) {
+            Ok(s) => s,
+            Err(e) => {
+                iox2_node_drop(nh);
+                return Err(e);
+            }
+        };
+        let b = iox2_service_builder_request_response(sb);
+        let rc = iox2_service_builder_request_response_set_request_payload_type_details(&b, cvariant(&cfg.req), cfg.req.name.as_ptr() as *const c_char, cfg.req.name.len() as _, cfg.req.size as _, cfg.req.align as _);
+        if rc != IOX2_OK {
+            iox2_node_drop(nh);
+            return Err(format!("E:iox2_type_detail_error_e:{}:-", rc));
+        }
+        let rc = iox2_service_builder_request_response_set_response_payload_type_details(&b, cvariant(&cfg.resp), cfg.resp.name.as_ptr() as *const c_char, cfg.resp.name.len() as _, cfg.resp.size as _, cfg.resp.align as _);
+        if rc != IOX2_OK {
+            iox2_node_drop(nh);
+            return Err(format!("E:iox2_type_detail_error_e:{}:-", rc));
+        }
+        iox2_service_builder_request_response_max_active_requests_per_client(&b, cfg.active as _);
+        iox2_service_builder_request_response_max_loaned_requests(&b, cfg.loans as _);
+        iox2_service_builder_request_response_max_response_buffer_size(&b, cfg.resp_buf as _);
+        iox2_service_builder_request_response_max_borrowed_responses_per_pending_response(&b, cfg.borrow as _);
+        iox2_service_builder_request_response_enable_safe_overflow_for_requests(&b, cfg.ovf_req);
+        iox2_service_builder_request_response_enable_safe_overflow_for_responses(&b, cfg.ovf_resp);
+        iox2_service_builder_request_response_max_servers(&b, 2);
+        iox2_service_builder_request_response_max_clients(&b, 2);
+        iox2_service_builder_request_response_set_max_nodes(&b, 8);
+        let mut f: iox2_port_factory_request_response_h = null_mut();
+        let rc = iox2_service_builder_request_response_open_or_create(b, null_mut(), &mut f);
+        if rc != IOX2_OK {
+            iox2_node_drop(nh);
+            return Err(cerr!(iox2_request_response_open_or_create_error_e, iox2_request_response_open_or_create_error_string, rc));
+        }
+        Ok(Box::new(CRrWorld { node: nh, factory: f, req: cfg.req.size, resp: cfg.resp.size }))
+    }
+}
+
+impl RrWorld for CRrWorld {
+    fn make_client(&self, cfg: &RrCfg) -> Result<Box<dyn ClientSide>, String> {
+        unsafe {
+            let b = iox2_port_factory_request_response_client_builder(&self.factory, null_mut());
+            iox2_port_factory_client_builder_backpressure_strategy(&b, iox2_backpressure_strategy_e::DISCARD_DATA);
+            if cfg.req.dynamic {
+                iox2_port_factory_client_builder_set_initial_max_slice_len(&b, cfg.req.slice_len as _);
+            }
+            let mut c: iox2_client_h = null_mut();
+            let rc = iox2_port_factory_client_builder_create(b, null_mut(), &mut c);
+            if rc != IOX2_OK {
+                return Err(cerr!(iox2_client_create_error_e, iox2_client_create_error_string, rc));
+            }
+            Ok(Box::new(CClient { port: Some(c), loans: Vec::new(), pendings: Vec::new(), responses: Vec::new(), req: self.req, resp: self.resp }))
+        }
+    }
+    fn make_server(&self, cfg: &RrCfg) -> Result<Box<dyn ServerSide>, String> {
+        unsafe {
+            let b = iox2_port_factory_request_response_server_builder(&self.factory, null_mut());
+            iox2_port_factory_server_builder_backpressure_strategy(&b, iox2_backpressure_strategy_e::DISCARD_DATA);
+            iox2_port_factory_server_builder_set_max_loaned_responses_per_request(&b, cfg.resp_loans as _);
+            if cfg.resp.dynamic {
+                iox2_port_factory_server_builder_set_initial_max_slice_len(&b, cfg.resp.slice_len as _);
+            }
+            let mut s: iox2_server_h = null_mut();
+            let rc = iox2_port_factory_server_builder_create(b, null_mut(), &mut s);
+            if rc != IOX2_OK {
+                return Err(cerr!(iox2_server_create_error_e, iox2_server_create_error_string, rc));
+            }
+            Ok(Box::new(CServer { port: Some(s), active: Vec::new(), loans: Vec::new(), req: self.req, resp: self.resp }))
+        }
+    }
+    fn counts(&self) -> (usize, usize) {
+        unsafe {
+            (
+                iox2_port_factory_request_response_dynamic_config_number_of_clients(&self.factory),
+                iox2_port_factory_request_response_dynamic_config_number_of_servers(&self.factory),
+            )
+        }
+    }
+    fn teardown(self: Box<Self>, node_first: bool) {
+        unsafe {
+            if node_first {
+                iox2_node_drop(self.node);
+                iox2_port_factory_request_response_drop(self.factory);
+            } else {
+                iox2_port_factory_request_response_drop(self.factory);
+                iox2_node_drop(self.node);
+            }
+        }
+    }
+}
+
+struct CClient {
+    port: Option<iox2_client_h>,
+    loans: Vec<iox2_request_mut_h>,
+    pendings: Vec<iox2_pending_response_h>,
+    responses: Vec<iox2_response_h>,
+    req: usize,
+    resp: usize,
+}
+
+impl CClient {
+    unsafe fn payload(&self, slot: usize) -> (*mut u8, usize) {
+        let mut p: *mut c_void = null_mut();
+        let mut n: usize = 0;
+        iox2_request_mut_payload_mut(&self.loans[slot], &mut p, &mut n);
+        (p as *mut u8, n * self.req)
+    }
+}
+
+impl ClientSide for CClient {
+    fn alive(&self) -> bool {
+        self.port.is_some()
+    }
+    fn loan(&mut self, n: usize) -> Result<(), String> {
+        unsafe {
+            let mut r: iox2_request_mut_h = null_mut();
+            let rc = iox2_client_loan_slice_uninit(self.port.as_ref().unwrap(), null_mut(), &mut r, n);
+            if rc != IOX2_OK {
+                return Err(cerr!(iox2_loan_error_e, iox2_loan_error_string, rc));
+            }
+            self.loans.push(r);
+            let (p, nb) = self.payload(self.loans.len() - 1);
+            for i in 0..nb {
+                p.add(i).write(0);
+            }
+            Ok(())
+        }
+    }
+    fn nloans(&self) -> usize {
+        self.loans.len()
+    }
+    fn write(&mut self, slot: usize, seed: u64) -> usize {
+        unsafe {
+            let (p, nb) = self.payload(slot);
+            for i in 0..nb {
+                p.add(i).write(pattern(seed, i));
+            }
+            nb
+        }
+    }
+    fn send(&mut self, slot: usize) -> Result<(), String> {
+        unsafe {
+            let r = self.loans.remove(slot);
+            let mut p: iox2_pending_response_h = null_mut();
+            let rc = iox2_request_mut_send(r, null_mut(), &mut p);
+            if rc != IOX2_OK {
+                return Err(cerr!(iox2_request_send_error_e, iox2_request_send_error_string, rc));
+            }
+            self.pendings.push(p);
+            Ok(())
+        }
+    }
+    fn send_copy(&mut self, n: usize, seed: u64) -> Result<(), String> {
+        unsafe {
+            let data: Vec<u8> = (0..n * self.req).map(|i| pattern(seed, i)).collect();
+            let mut p: iox2_pending_response_h = null_mut();
+            let rc = iox2_client_send_copy(self.port.as_ref().unwrap(), data.as_ptr() as *const c_void, self.req, n, null_mut(), &mut p);
+            if rc != IOX2_OK {
+                // the documentation names iox2_send_error_e; the Rust API returns RequestSendError
+                return Err(cerr!(iox2_request_send_error_e, iox2_request_send_error_string, rc));
+            }
+            self.pendings.push(p);
+            Ok(())
+        }
+    }
+    fn drop_loan(&mut self, slot: usize) {
+        unsafe { iox2_request_mut_drop(self.loans.remove(slot)) }
+    }
+    fn npending(&self) -> usize {
+        self.pendings.len()
+    }
+    fn p_recv(&mut self, p: usize) -> Result<Option<String>, String> {
+        unsafe {
+            let mut r: iox2_response_h = null_mut();
+            let rc = iox2_pending_response_receive(&self.pendings[p], null_mut(), &mut r);
+            if rc != IOX2_OK {
+                return Err(cerr!(iox2_receive_error_e, iox2_receive_error_string, rc));
+            }
+            if r.is_null() {
+                return Ok(None);
+            }
+            let mut pp: *const c_void = core::ptr::null();
+            let mut n: usize = 0;
+            iox2_response_payload(&r, &mut pp, &mut n);
+            let nb = n * self.resp;
+            let bytes = core::slice::from_raw_parts(pp as *const u8, nb);
+            let d = format!("n={} len={} {}", n, nb, hex(bytes));
+            self.responses.push(r);
+            Ok(Some(d))
+        }
+    }
+    fn p_has(&mut self, p: usize) -> bool {
+        unsafe { iox2_pending_response_has_response(&self.pendings[p]) }
+    }
+    fn p_connected(&mut self, p: usize) -> bool {
+        unsafe { iox2_pending_response_is_connected(&self.pendings[p]) }
+    }
+    fn p_drop(&mut self, p: usize) {
+        unsafe { iox2_pending_response_drop(self.pendings.remove(p)) }
+    }
+    fn nresponses(&self) -> usize {
+        self.responses.len()
+    }
+    fn release(&mut self, slot: usize) {
+        unsafe { iox2_response_drop(self.responses.remove(slot)) }
+    }
+    fn drop_port(&mut self) {
+        if let Some(p) = self.port.take() {
+            unsafe { iox2_client_drop(p) }
+        }
+    }
+}
+
+impl Drop for CClient {
+    fn drop(&mut self) {
+        unsafe {
+            for r in self.loans.drain(..) {
+                iox2_request_mut_drop(r);
+            }
+            for r in self.responses.drain(..) {
+                iox2_response_drop(r);
+            }
+            for p in self.pendings.drain(..) {
+                iox2_pending_response_drop(p);
+            }
+            if let Some(p) = self.port.take() {
+                iox2_client_drop(p);
+            }
+        }
+    }
+}
+
+struct CServer {
+    port: Option<iox2_server_h>,
+    active: Vec<iox2_active_request_h>,
+    loans: Vec<iox2_response_mut_h>,
+    req: usize,
+    resp: usize,
+}
+
+impl CServer {
+    unsafe fn payload(&self, slot: usize) -> (*mut u8, usize) {
+        let mut p: *mut c_void = null_mut();
+        let mut n: usize = 0;
+        iox2_response_mut_payload_mut(&self.loans[slot], &mut p, &mut n);
+        (p as *mut u8, n * self.resp)
+    }
+}
+
+impl ServerSide for CServer {
+    fn alive(&self) -> bool {
+        self.port.is_some()
+    }
+    fn recv(&mut self) -> Result<Option<String>, String> {
+        unsafe {
+            let mut a: iox2_active_request_h = null_mut();
+            let rc = iox2_server_receive(self.port.as_ref().unwrap(), null_mut(), &mut a);
+            if rc != IOX2_OK {
+                return Err(cerr!(iox2_receive_error_e, iox2_receive_error_string, rc));
+            }
+            if a.is_null() {
+                return Ok(None);
+            }
+            let mut pp: *const c_void = core::ptr::null();
+            let mut n: usize = 0;
+            iox2_active_request_payload(&a, &mut pp, &mut n);
+            let nb = n * self.req;
+            let bytes = core::slice::from_raw_parts(pp as *const u8, nb);
+            let d = format!("n={} len={} {}", n, nb, hex(bytes));
+            self.active.push(a);
+            Ok(Some(d))
+        }
+    }
+    fn has(&mut self) -> Result<bool, String> {
+        unsafe {
+            let mut r = false;
+            let rc = iox2_server_has_requests(self.port.as_ref().unwrap(), &mut r);
+            if rc != IOX2_OK {
+                return Err(cerr!(iox2_connection_failure_e, iox2_connection_failure_string, rc));
+            }
+            Ok(r)
+        }
+    }
+    fn nactive(&self) -> usize {
+        self.active.len()
+    }
+    fn a_loan(&mut self, a: usize, n: usize) -> Result<(), String> {
+        unsafe {
+            let mut r: iox2_response_mut_h = null_mut();
+            let rc = iox2_active_request_loan_slice_uninit(&self.active[a], null_mut(), &mut r, n);
+            if rc != IOX2_OK {
+                return Err(cerr!(iox2_loan_error_e, iox2_loan_error_string, rc));
+            }
+            self.loans.push(r);
+            let (p, nb) = self.payload(self.loans.len() - 1);
+            for i in 0..nb {
+                p.add(i).write(0);
+            }
+            Ok(())
+        }
+    }
+    fn a_send_copy(&mut self, a: usize, n: usize, seed: u64) -> Result<(), String> {
+        unsafe {
+            let data: Vec<u8> = (0..n * self.resp).map(|i| pattern(seed, i)).collect();
+            let rc = iox2_active_request_send_copy(&self.active[a], data.as_ptr() as *const c_void, self.resp, n);
+            if rc != IOX2_OK {
+                return Err(cerr!(iox2_send_error_e, iox2_send_error_string, rc));
+            }
+            Ok(())
+        }
+    }
+    fn a_connected(&mut self, a: usize) -> bool {
+        unsafe { iox2_active_request_is_connected(&self.active[a]) }
+    }
+    fn a_drop(&mut self, a: usize) {
+        unsafe { iox2_active_request_drop(self.active.remove(a)) }
+    }
+    fn nloans(&self) -> usize {
+        self.loans.len()
+    }
+    fn write(&mut self, slot: usize, seed: u64) -> usize {
+        unsafe {
+            let (p, nb) = self.payload(slot);
+            for i in 0..nb {
+                p.add(i).write(pattern(seed, i));
+            }
+            nb
+        }
+    }
+    fn send(&mut self, slot: usize) -> Result<(), String> {
+        unsafe {
+            let r = self.loans.remove(slot);
+            let rc = iox2_response_mut_send(r);
+            if rc != IOX2_OK {
+                return Err(cerr!(iox2_send_error_e, iox2_send_error_string, rc));
+            }
+            Ok(())
+        }
+    }
+    fn drop_loan(&mut self, slot: usize) {
+        unsafe { iox2_response_mut_drop(self.loans.remove(slot)) }
+    }
+    fn drop_port(&mut self) {
+        if let Some(p) = self.port.take() {
+            unsafe { iox2_server_drop(p) }
+        }
+    }
+}
+
+impl Drop for CServer {
+    fn drop(&mut self) {
+        unsafe {
+            for r in self.loans.drain(..) {
+                iox2_response_mut_drop(r);
+            }
+            for a in self.active.drain(..) {
+                iox2_active_request_drop(a);
+            }
+            if let Some(p) = self.port.take() {
+                iox2_server_drop(p);
+            }
+        }
+    }
+}
